@@ -10,6 +10,7 @@ import (
 	"encoding/binary"
 	"encoding/hex"
 	"fmt"
+	"os"
 	"regexp"
 	"runtime"
 	"runtime/debug"
@@ -84,6 +85,9 @@ type entry struct {
 	// noReject: likewise for entries that cannot reject.
 	noReject string
 	serial   bool
+	// passes: how many times the adapter itself decodes / copies the input (pipeline of several real components);
+	// the allocation bound is passes*64*len+8MiB
+	passes int
 	pairs    bool // thorough: all pairs of F1 mutations
 	// deep: thorough-only extra options (S<=3 for sub-microsecond decoders)
 	smallDeep bool
@@ -212,8 +216,9 @@ func hexShort(b []byte) string {
 }
 
 // exec runs one case and applies the oracle. Returns the outcome class.
-func (h *harness) exec(e *entry, w any, si int, kind, label string, data []byte, samples []metrics.Sample) string {
+func (h *harness) exec(e *entry, w any, si int, kind, label string, data []byte, wc *wctx) string {
 	c := h.c
+	samples := wc.samples
 	c.Count("evaluations", 1)
 	c.Count("executions", 1)
 	e.cases.Add(1)
@@ -225,7 +230,7 @@ func (h *harness) exec(e *entry, w any, si int, kind, label string, data []byte,
 	dur := time.Since(t0)
 	a1 := allocNow(samples)
 	h.excl.RUnlock()
-	class := errClass(err)
+	class := wc.class(err)
 	switch {
 	case panicked:
 		fn, pos := panicSite(stack)
@@ -252,11 +257,18 @@ func (h *harness) exec(e *entry, w any, si int, kind, label string, data []byte,
 			h.record("hang:"+e.name, fmt.Sprintf("%s: call took %v (3 times above %v) on seed %q mutation %s; input %s", e.name, dur, hangLimit, e.seeds[si].name, label, hexShort(data)), rc, len(data), hexShort(data))
 		}
 	}
-	limit := uint64(allocFactor*len(data) + allocSlack)
+	passes := e.passes
+	if passes == 0 {
+		passes = 1
+	}
+	limit := uint64(passes*allocFactor*len(data) + allocSlack)
 	if a1-a0 > limit {
 		// other goroutines allocate too: measure again alone, exactly, three times
 		h.excl.Lock()
 		c.Count("alloc_remeasured", 1)
+		if os.Getenv("C11_DEBUG") != "" {
+			fmt.Fprintf(os.Stderr, "CAND %s seed=%d %s len=%d parallel=%d limit=%d dur=%v\n", e.name, si, label, len(data), a1-a0, limit, dur)
+		}
 		tEx := time.Now()
 		over := 0
 		var worst uint64
@@ -264,24 +276,66 @@ func (h *harness) exec(e *entry, w any, si int, kind, label string, data []byte,
 			b0 := exactAlloc()
 			guarded(func() error { return e.call(w, si, data) })
 			d := exactAlloc() - b0
-			if d > limit {
-				over++
-			}
 			if d > worst {
 				worst = d
 			}
+			if d <= limit {
+				break // the first measurement was inflated by the other goroutines
+			}
+			over++
 		}
 		h.excl.Unlock()
 		c.Count("alloc_remeasure_ms", time.Since(tEx).Milliseconds())
 		if over == 3 {
 			c.Count("alloc_flagged", 1)
-			h.record("alloc:"+e.name, fmt.Sprintf("%s: %d bytes allocated for a %d byte input (limit 64*len+8MiB = %d, measured alone 3 times) on seed %q mutation %s; input %s", e.name, worst, len(data), limit, e.seeds[si].name, label, hexShort(data)), rc, len(data), hexShort(data))
-			class += "+alloc"
+			h.record("alloc:"+e.name+":"+allocKind(kind, label), fmt.Sprintf("%s: %d bytes allocated for a %d byte input (limit %d, measured alone 3 times) on seed %q mutation %s; input %s", e.name, worst, len(data), limit, e.seeds[si].name, label, hexShort(data)), rc, len(data), hexShort(data))
 		}
 	}
-	c.Distinct("distinct", e.name+"|"+kind+"|"+class)
-	c.Distinct("outcomes", e.name+"|"+class)
+	if dk := e.name + "|" + kind + "|" + class; !wc.seen[dk] {
+		wc.seen[dk] = true
+		c.Distinct("distinct", dk)
+		c.Distinct("outcomes", e.name+"|"+class)
+	}
 	return class
+}
+
+// wctx is the per-goroutine part of the harness (caches that keep the per-case overhead small).
+type wctx struct {
+	samples []metrics.Sample
+	seen    map[string]bool
+	classes map[string]string
+}
+
+func newWctx() *wctx {
+	return &wctx{samples: []metrics.Sample{{Name: "/gc/heap/allocs:bytes"}}, seen: map[string]bool{}, classes: map[string]string{}}
+}
+
+func (wc *wctx) class(err error) string {
+	if err == nil {
+		return "ok"
+	}
+	s := err.Error()
+	if c, ok := wc.classes[s]; ok {
+		return c
+	}
+	c := errClass(err)
+	if len(wc.classes) < 4096 {
+		wc.classes[s] = c
+	}
+	return c
+}
+
+// allocKind classifies the mutation behind an allocation finding: kind plus its operation without numbers.
+func allocKind(kind, label string) string {
+	op := label
+	if i := strings.LastIndexByte(op, ':'); i >= 0 {
+		op = op[i+1:]
+	}
+	op = strings.Trim(digits.ReplaceAllString(op, ""), "=- ")
+	if op == "" {
+		return kind
+	}
+	return kind + "-" + op
 }
 
 type job struct {
@@ -428,54 +482,65 @@ func (h *harness) runEntry(e *entry, thorough bool, phase int) (complete bool) {
 		nw = 1
 	}
 	jobs := make(chan []job, 4*nw)
+	// big inputs go through one lane of their own: their legitimate allocations (a few times their size) would
+	// otherwise show up as noise in the allocation measurements of the cases running next to them
+	bigJobs := make(chan []job, 64)
 	var wg sync.WaitGroup
 	var stop atomic.Bool
+	lane := func(ch chan []job) {
+		defer wg.Done()
+		var w any
+		if e.worker != nil {
+			w = e.worker()
+		}
+		wc := newWctx()
+		for batch := range ch {
+			for _, j := range batch {
+				if stop.Load() {
+					continue
+				}
+				h.exec(e, w, j.si, j.kind, j.label, j.data, wc)
+			}
+			if c.TimeUp() {
+				stop.Store(true)
+			}
+		}
+	}
 	for i := 0; i < nw; i++ {
 		wg.Add(1)
-		go func() {
-			defer wg.Done()
-			var w any
-			if e.worker != nil {
-				w = e.worker()
-			}
-			samples := []metrics.Sample{{Name: "/gc/heap/allocs:bytes"}}
-			for batch := range jobs {
-				for _, j := range batch {
-					if stop.Load() {
-						continue
-					}
-					h.exec(e, w, j.si, j.kind, j.label, j.data, samples)
-				}
-				if c.TimeUp() {
-					stop.Store(true)
-				}
-			}
-		}()
+		go lane(jobs)
 	}
+	wg.Add(1)
+	go lane(bigJobs)
 	var batch []job
-	size := 0
 	flush := func() {
 		if len(batch) > 0 {
 			jobs <- batch
-			batch, size = nil, 0
+			batch = nil
 		}
 	}
 	h.enumerate(e, thorough, phase, func(j job) bool {
 		if stop.Load() {
 			return false
 		}
+		if len(j.data) > bigInput {
+			bigJobs <- []job{j}
+			return true
+		}
 		batch = append(batch, j)
-		size += len(j.data) + 64
-		if len(batch) >= 256 || size > 4<<20 {
+		if len(batch) >= 256 {
 			flush()
 		}
 		return true
 	})
 	flush()
 	close(jobs)
+	close(bigJobs)
 	wg.Wait()
 	return !stop.Load()
 }
+
+const bigInput = 16 << 10
 
 func TestCheck(t *testing.T) {
 	vk.Main(t, vk.Spec{
@@ -532,7 +597,7 @@ func body(c *vk.Ctx) {
 			if e.worker != nil {
 				w = e.worker()
 			}
-			class := h.exec(e, w, rf.Case.Seed, kind, rf.Case.Label, data, []metrics.Sample{{Name: "/gc/heap/allocs:bytes"}})
+			class := h.exec(e, w, rf.Case.Seed, kind, rf.Case.Label, data, newWctx())
 			c.Note("replay %+v: %d bytes -> %s", rf.Case, len(data), class)
 			h.report()
 			return
